@@ -53,7 +53,7 @@ from bv.refs import schedref as ref
 
 PROPERTY = "C20"
 LEVEL = "exploration"
-BUDGET = {"quick": 55.0, "thorough": 870.0}
+BUDGET = {"quick": 75.0, "thorough": 1200.0}
 RULE = ("part1: every (calendar date of the listed years) x (pattern): Date patterns year{any,same,previous,next} x "
         "month{1..12,odd,even,any} x day{1..31,last,odd,even,any} x dow{1..7,any}; date ranges with both ends from "
         "{open, year/month/leap boundary dates, the date itself, the day before/after}; WeekNDay month{1..12,odd,even,any} x "
